@@ -164,8 +164,8 @@ def LRel (c : Opts) (l : ResLimiter) (u : Usage) : Prop :=
 theorem lrel_init (c : Opts) (hl : c.limit = 1) (hs : saneBurst c = true) (g : Int) (hg : g ≤ 0) :
     LRel c (ResLimiter.init ⟨g, c⟩) [] := by
   refine ⟨?_, ClientLimiter.new c, fun _ => 0, ?_, rfl, charged_new c hs, ?_⟩
-  · simp only [ResLimiter.init]; rw [if_neg (by omega)]
-  · simp only [ResLimiter.init]; rw [if_pos (by omega)]
+  · simp only [ResLimiter.init, limitSet, decide_eq_true_eq]; rw [if_neg (by omega)]
+  · simp only [ResLimiter.init, limitSet, decide_eq_true_eq]; rw [if_pos (by omega)]
   · intro a _; simp [Usage.get]
 
 /-- a hidden charge (its verdict is ignored): the brackets survive if `hi` has room for it -/
